@@ -294,6 +294,16 @@ func c16MergeSets() []gen.FileSet {
 		&ref.Model{Module: "ma", Types: []ref.TypeDef{{Name: "user"}, {Name: "viewer", Rels: []ref.Relation{r("viewer")}}}},
 		&ref.Model{Module: "mb", Types: []ref.TypeDef{{Name: "define", Rels: []ref.Relation{{Name: "x", Rw: ref.T(), Restr: []ref.Restriction{{Type: "viewer", Relation: "viewer"}}}}},
 			{Name: "viewer", Extend: true, Rels: []ref.Relation{{Name: "define", Rw: ref.T(), Restr: u}, r("viewer")}}}}))
+	// keywords used as type names inside a restriction list that is spread over several lines: under the layout style that puts
+	// every restriction on a line of its own, lines of the extend block begin with the words type / extend / module / model (the keywords the grammar admits as names)
+	kw := []ref.Restriction{{Type: "type"}, {Type: "extend", Wildcard: true}, {Type: "module", Relation: "relation"}, {Type: "model"}, {Type: "user"}}
+	kwTypes := []ref.TypeDef{{Name: "user"}, {Name: "type"}, {Name: "extend"}, {Name: "module", Rels: []ref.Relation{r("relation")}}, {Name: "model"}, {Name: "doc", Rels: []ref.Relation{r("viewer")}}}
+	sets = append(sets, mk("alike-keyword-named-types-in-restrictions-before-clash",
+		&ref.Model{Module: "ma", Types: kwTypes},
+		&ref.Model{Module: "mb", Types: []ref.TypeDef{{Name: "doc", Extend: true, Rels: []ref.Relation{{Name: "editor", Rw: ref.T(), Restr: kw}, r("viewer")}}}}))
+	sets = append(sets, mk("alike-keyword-named-types-in-restrictions-before-dup-type",
+		&ref.Model{Module: "ma", Types: kwTypes},
+		&ref.Model{Module: "mb", Types: []ref.TypeDef{{Name: "folder", Rels: []ref.Relation{{Name: "editor", Rw: ref.T(), Restr: kw}}}, {Name: "user"}}}))
 	return append(sets,
 		mk("dup-type-with-longer-named-type-before",
 			&ref.Model{Module: "ma", Types: []ref.TypeDef{{Name: "user"}, {Name: "doc", Rels: []ref.Relation{r("viewer")}}}},
